@@ -1,6 +1,6 @@
 """Shared plumbing for bin/check: builds the harness, runs it, runs TLC, parses TLC output.
 Python only transports data; every judgement is made by TLC on the TLA+ specification."""
-import json, os, re, subprocess, sys, time, shutil, collections, hashlib, concurrent.futures
+import json, os, re, subprocess, sys, time, shutil, collections, hashlib, concurrent.futures, threading
 
 VERIF = os.path.dirname(os.path.dirname(os.path.abspath(__file__)))
 SPEC = os.path.join(VERIF, "spec")
@@ -121,13 +121,14 @@ class Run:
         self.violations = 0
         self.known_hits = []
         self.apalache = None
+        self.lock = threading.Lock()
 
     # ---- MC + GEN ------------------------------------------------------------------
     def run_mc(self, job):
         tier = self.tier
         module = job.get("module", "MC")
         name = "%s_%s_%s" % (module, job["model"], tier)
-        cfg = os.path.join(SPEC, ".gen_%s_%d.cfg" % (name, os.getpid()))
+        cfg = os.path.join(SPEC, ".gen_%s_%d_%d.cfg" % (name, os.getpid(), id(job) % 100000))
         default_inv = {"MC": ["Holds", "WellFormedInv", "DirtyInv", "SelfInv", "Emit"]}
         inv = job.get("invariants", default_inv.get(module, ["Emit"]))
         with open(cfg, "w") as f:
@@ -145,8 +146,8 @@ class Run:
             if job.get("constraint"):
                 f.write("CONSTRAINT %s\n" % job["constraint"])
             f.write("INVARIANTS " + " ".join(inv) + "\nCHECK_DEADLOCK FALSE\n")
-        md = os.path.join(self.wd, "md-" + name + "-%d" % len(self.mc_runs))
-        cmd = tlc_cmd(["-workers", str(job.get("workers", 8)), "-metadir", md, "-cleanup", "-noGenerateSpecTE",
+        md = os.path.join(self.wd, "md-" + name + "-%d" % (id(job) % 100000))
+        cmd = tlc_cmd(["-workers", str(job.get("workers", 6)), "-metadir", md, "-cleanup", "-noGenerateSpecTE",
                        "-config", os.path.basename(cfg), module + ".tla"], job.get("xmx", "8g"))
         ports = job["ports"][tier]
         t0 = time.time()
@@ -174,17 +175,20 @@ class Run:
             raise ToolError("MC run %s did not complete cleanly (the specification itself fails its own "
                             "property or could not be evaluated):\n%s" % (name, out[-3500:]))
         gen, dist = int(m.group(1)), int(m.group(2))
-        self.states += dist
-        self.transitions += gen
+        with self.lock:
+            self.states += dist
+            self.transitions += gen
         self.mc_runs.append({"module": module, "model": job["model"], "bounds": job.get("geoms", {}).get(tier) or {k: (v[tier] if isinstance(v, dict) else v) for k, v in job.get("constants", {}).items()},
                              "states_distinct": dist, "states_generated": gen, "vectors": nvec, "invariants": inv,
                              "wall_s": round(time.time() - t0, 1)})
 
     def put(self, h, kind):
-        self.hf[self.nhist % self.n].write(json.dumps(h, separators=(",", ":")) + "\n")
-        self.nhist += 1
-        if len([x for x in self.samples if x["kind"] == kind]) < 2:
-            self.samples.append({"kind": kind, "history": h})
+        line = json.dumps(h, separators=(",", ":")) + "\n"
+        with self.lock:
+            self.hf[self.nhist % self.n].write(line)
+            self.nhist += 1
+            if len([x for x in self.samples if x["kind"] == kind]) < 2:
+                self.samples.append({"kind": kind, "history": h})
 
     def add_vector_seq(self, job, vec, idx, ports):
         """a multi-step sequence (MCSeq): setup, then every event logged and judged"""
@@ -238,6 +242,7 @@ class Run:
         for port, every in ports.items():
             if idx % every != 0:
                 continue
+            group = []
             for k, chunks in enumerate(vec["cuts"]):
                 if port == "bytes":
                     evs = [{"op": "feedb", "p": [], "s": [], "pr": False, "port": "bytes", "b": c} for c in chunks["b"]]
@@ -246,10 +251,12 @@ class Run:
                 h = {"id": "%s-v%d-%s-%d" % (job["model"], idx, port, k), "sid": "%s-v%d-%s" % (job["model"], idx, port), "cmp": "C02",
                      "C": vec["C"], "L": vec["L"], "scr": True, "utf8": vec.get("utf8", True), "evs": evs}
                 # all cut placements of one stream go to the same shard, contiguously
-                self.hf[idx % self.n].write(json.dumps(h, separators=(",", ":")) + "\n")
-                self.nhist += 1
-            if len([x for x in self.samples if x["kind"] == "vector-stream"]) < 2:
-                self.samples.append({"kind": "vector-stream", "history": h})
+                group.append(json.dumps(h, separators=(",", ":")) + "\n")
+            with self.lock:
+                self.hf[idx % self.n].write("".join(group))
+                self.nhist += len(group)
+                if len([x for x in self.samples if x["kind"] == "vector-stream"]) < 2:
+                    self.samples.append({"kind": "vector-stream", "history": h})
 
     def add_vector_screen(self, job, vec, idx, ports):
         for port, every in ports.items():
@@ -405,9 +412,10 @@ class Run:
 
     # ---- main ------------------------------------------------------------------------
     def execute(self):
-        for job in self.plan.get("mc", []):
-            if job.get("tiers", ("quick", "thorough")).__contains__(self.tier):
-                self.run_mc(job)
+        jobs = [j for j in self.plan.get("mc", []) if self.tier in j.get("tiers", ("quick", "thorough"))]
+        if jobs:      # up to three bounded models at a time
+            with concurrent.futures.ThreadPoolExecutor(max_workers=3) as ex:
+                list(ex.map(self.run_mc, jobs))
         if self.plan.get("apalache"):
             self.run_apalache()
         for job in self.plan.get("gen", []):
